@@ -1,5 +1,6 @@
 \* Termination on the long-chain family: chains of up to 33 links into cycles
-\* of length 1..3 and 33; liveness under weak fairness plus the variant.
+\* of length 1..3 and 33, and lead-ins of 0, 1, 2, 9 names into cycles of 7..33
+\* names; liveness under weak fairness plus the variant.
 CONSTANTS U = "chain" MaxLen = 0 EmitFrom = 1 Shard = 0 Perms = FALSE Families = 3 Mode = "live"
 SPECIFICATION Spec
 PROPERTIES Terminates VariantGrows
